@@ -4,12 +4,16 @@
    the specification computed and the abstract post-state (committed tables and the view
    of the open transaction).
 
+   Cover = TRUE (with VIEW GView) emits instead, for every transition of the reachable
+   state graph, one history: a shortest path to the source state followed by the step.
+
    Canon = TRUE enumerates histories up to renaming of resources: a step may mention a
    resource not mentioned before only if it is the smallest such one (all resources are
    interchangeable in Ontology.tla when InitRes = N). The harness re-introduces the
    renamings as permutations of concrete identifiers.                                  *)
 EXTENDS Ontology, Json
-CONSTANTS Depth, Canon
+CONSTANTS Depth, Canon,
+          Cover   \* TRUE: emit the history of every transition of the state graph (use VIEW GView)
 VARIABLES hist, k      \* k: resources 1..k have been mentioned
 gvars == <<vars, hist, k>>
 
@@ -20,17 +24,25 @@ C1(a) == ~Canon \/ a <= k + 1
 C2(a, b) == ~Canon \/ (a <= k + 1 /\ b <= Max(k, a) + 1)
 CS(k0, S) == ~Canon \/ LET new == {x \in S : x > k0} IN new = (k0 + 1)..(k0 + Cardinality(new))
 C1S(a, S) == ~Canon \/ (a <= k + 1 /\ CS(Max(k, a), S))
+SetSeq2(S) == IF S = {} THEN <<>> ELSE IF Cardinality(S) = 1 THEN <<CHOOSE x \in S : TRUE>>
+              ELSE <<"cyclic", "notfound">>
 OpenTx == IF OpenTxs = {} THEN "none" ELSE CHOOSE t \in OpenTxs : TRUE
 SetSeq(S) == LET RECURSIVE F(_) F(T) == IF T = {} THEN <<>> ELSE
                    LET m == CHOOSE x \in T : \A y \in T : x <= y IN <<m>> \o F(T \ {m})
              IN F(S)
+\* rc: every refusal class C16 justifies for a define step (evaluated in the pre-state)
+Rc(a, w, x, ty, y, S) ==
+  IF a = "defrel" THEN SetSeq2(Refusals(ViewR(w), ViewE(w), x, ty, {y}))
+  ELSE IF a = "defmany" THEN SetSeq2(Refusals(ViewR(w), ViewE(w), x, ty, S))
+  ELSE <<>>
 RecS(a, w, x, ty, y, S) ==
   LET o == OpenTx' IN
-  [a |-> a, w |-> w, x |-> x, ty |-> ty, y |-> y, s |-> SetSeq(S), cls |-> out',
+  [a |-> a, w |-> w, x |-> x, ty |-> ty, y |-> y, s |-> SetSeq(S), cls |-> out', rc |-> Rc(a, w, x, ty, y, S),
    res |-> res', edges |-> edges', otx |-> o,
    vres |-> IF o = "none" THEN res' ELSE ((res' \ tx'[o].delR) \cup tx'[o].setR),
    vedges |-> IF o = "none" THEN edges' ELSE ((edges' \ tx'[o].delE) \cup tx'[o].setE)]
-Log(a, w, x, ty, y, S, kk) == hist' = Append(hist, RecS(a, w, x, ty, y, S)) /\ k' = kk
+Log(a, w, x, ty, y, S, kk) == /\ hist' = Append(hist, RecS(a, w, x, ty, y, S)) /\ k' = kk
+                             /\ (~Cover \/ PrintT(<<"HIST", ToJson(hist')>>))
 
 GNext ==
   /\ Len(hist) < Depth
@@ -55,5 +67,8 @@ GNext ==
                \/ DeleteInOfType(w, r, ty) /\ Log("delin", w, r, ty, 0, {}, Max(k, r))
 GInit == Init /\ hist = <<>> /\ k = 0
 GSpec == GInit /\ [][GNext]_gvars
-Emit == Len(hist) # Depth \/ PrintT(<<"HIST", ToJson(hist)>>)
+Emit == Cover \/ Len(hist) # Depth \/ PrintT(<<"HIST", ToJson(hist)>>)
+\* transition cover: with this VIEW every abstract state is expanded once, from the
+\* first (shortest) history that reached it, and Log prints one history per transition
+GView == <<SeqView, k>>
 ====
